@@ -104,6 +104,13 @@ def run(ctx):
                 if isinstance(t, Op) and t.op == "<<" and isinstance(t.args[1], Const) and t.args[1].v == 10:
                     a10 = True
     if not a10:
+        # the same composition written as a bit assignment (cmd.a[10] <= flag ...): whether it is confined to column commands is decided by C06.1 (cmd.a-bit-override)
+        for l in bm.leaves:
+            if l.kind == "assign" and isinstance(l.target, Op) and l.target.op == "index" and key(l.target.args[0]) == "cmd.a" and key(l.target.args[1]) == "10" \
+                    and any("auto_precharge" in x or "precharge" in x for x in support(l.value)):
+                a10 = True
+                ob4.instance("A10 written as a bit assignment", str(l)[:140])
+    if not a10:
         ob4.refute("a10-or", "the auto-precharge flag is not OR-ed onto column bit 10 of cmd.a", None)
     # a partial driver of cmd.a (cmd.a[i] / cmd.a[i:j] <= ...) that is not confined to column commands overrides those bits of the ROW of an activate too
     for l in bm.leaves:
